@@ -1,6 +1,7 @@
 use crate::report::Report;
 use std::sync::Arc;
 
+pub mod c10;
 pub mod c16;
 pub mod c17;
 
@@ -13,6 +14,7 @@ pub struct Entry {
 
 pub fn lookup(id: &str) -> Option<Entry> {
     Some(match id {
+        "C10" => Entry { id: "C10", run: c10::run, replay: c10::replay },
         "C16" => Entry { id: "C16", run: c16::run, replay: c16::replay },
         "C17" => Entry { id: "C17", run: c17::run, replay: c17::replay },
         _ => return None,
